@@ -219,6 +219,11 @@ def run(chk, repo):
     kwname(chk, repo, 'C01.kw', ['svgraph', 'cli.call_variant_peptide'], floor=0)
     chk.clauses.append('C01.l the only variants create_variant_graph drops without applying start strictly in front of a cursor node - exactly the positions apply_variant rejects')
     skip_guard_contract(chk, repo, 'C01.l')
+    from rules.C06 import rule_drain
+    chk.clauses.append('C01.m (shared with C06.a) every gathered transcript is dispatched: the batch loop flushes on every path of its last iteration, so no transcript\'s peptides are dropped with --threads > 1')
+    rule_drain(chk, repo, 'C01.m')
+    chk.clauses.append('C01.n the scan that merges adjacent variants into MNVs passes over co-located / overlapping variants and stops only strictly behind the first variant')
+    mnv_scan(chk, repo, 'C01.n')
 
 
 def skip_guard_contract(chk, repo, rid):
@@ -274,3 +279,51 @@ def skip_guard_contract(chk, repo, rid):
            f"create_variant_graph drops the variant when {drops} for some cursor, but apply_variant handles every variant_start >= source_start (it has a dedicated "
            "branch for equality): variants that start exactly at a node boundary (adjacent variants, second allele of a site, merged MNVs) never enter the graph",
            key=cv.qual + '::skip-guard', fn=cv.qual)
+
+
+def mnv_scan(chk, repo, rid):
+    """R-NEAREST: find_mnvs_from_adjacent_variants scans the sorted variants for those that start exactly where v_0 ends.
+    Candidates in front of that position (same site, overlapping) must be passed over, and the scan may only be abandoned for
+    a candidate strictly behind it - otherwise a co-located variant hides the adjacent one and the merged MNV (a haplotype the
+    property counts) is never created."""
+    from sa import sem
+    chk.rule(rid, 'R-NEAREST: the adjacent-variant scan stops only strictly past the end of the first variant and skips what lies before it', 2)
+    f = repo.func('seqvar.VariantRecord:find_mnvs_from_adjacent_variants')
+    chk.uses(f)
+    nf = f.node          # statement-level form (the canonical form merges the skip tests into one decision region)
+    loops_ = [l for l in ast.walk(nf) if isinstance(l, ast.For) and isinstance(l.iter, ast.Call) and call_name(l.iter) == 'range'
+              and any(isinstance(x, ast.Break) for x in ast.walk(l)) and not any(isinstance(m, ast.For) and m is not l for m in ast.walk(l))]
+    if len(loops_) != 1:
+        chk.undecided(rid, 'adjacent-variant scan', f.where, f"{len(loops_)} innermost range() scans with an early exit found", key=f.qual + '::scan', fn=f.qual)
+        return
+    lp = loops_[0]
+    inside = {id(x) for x in ast.walk(lp)}
+    ch = sem.block_chains(nf)
+
+    def lits_at(pred):
+        out = []
+        for st, fx in sem.facts_where(nf, pred):
+            if id(st) in inside and fx is not None:
+                ls = set()
+                for t, v in sem.sure_literals(fx):
+                    e = ast.parse(t, mode='eval').body
+                    ls.add(sem.lit(unparse(sem.expand_names(nf, st, e, chains=ch)), v))
+                out.append((st, ls))
+        return out
+    # the candidate: variants[<loop index>];  the anchor: the variant of the outer enumeration
+    iv = lp.target.id if isinstance(lp.target, ast.Name) else 'j'
+    outer = [l for l in ast.walk(nf) if isinstance(l, ast.For) and isinstance(l.iter, ast.Call) and call_name(l.iter) == 'enumerate' and any(x is lp for x in ast.walk(l))]
+    v0 = outer[0].target.elts[1].id if outer and isinstance(outer[0].target, ast.Tuple) and len(outer[0].target.elts) == 2 else 'v_0'
+    seqn = unparse(outer[0].iter.args[0]) if outer else 'variants'
+    cand = f'{seqn}[{iv}]'
+    past = sem.lit(f'{cand}.location.start > {v0}.location.end')
+    before = sem.lit(f'{cand}.location.start < {v0}.location.end')
+    brks = lits_at(lambda st: isinstance(st, ast.Break))
+    ok_b = bool(brks) and all(past in ls for _st, ls in brks)
+    chk.ob(rid, 'the scan is abandoned only for a candidate that starts strictly behind the end of the first variant', repo.loc(f, lp), ok_b,
+           f"the scan breaks under {[sorted(l_ for l_ in ls if 'location' in l_[0]) for _st, ls in brks]}: a candidate that starts in front of `{v0}.location.end` (same site, overlap) "
+           'ends the search, so the variant adjacent to it is never merged', key=f.qual + '::stop', fn=f.qual)
+    conts = lits_at(lambda st: isinstance(st, ast.Continue))
+    ok_c = any(before in ls for _st, ls in conts)
+    chk.ob(rid, 'candidates in front of the end of the first variant are passed over', repo.loc(f, lp), ok_c,
+           'no `continue` for candidates that start before the end of the first variant', key=f.qual + '::skip', fn=f.qual)
